@@ -42,13 +42,13 @@ CLAIMED = {
         technique="Lean 4: exact characterisation of a cancelable cycle's report (cancelable_cycle_records / commitGroups) + per-id buffering lemma; differential fh-seq vs model; python spec oracle (nothing before commit, single report, completeness)",
         text="Kernel-checked for every collector state and batch: C03_report_is_emitted (report = buffered span sets of the ids committed in this batch), C03_only_at_commit, C03_no_commit_no_records, C03_single_report (each id once, not retained afterwards), C03_whole (emitted group = everything buffered before ++ everything routed in this batch, in order), C03_held_accumulates. "
              "Tie: cancelable programs with children finishing on other threads before the root, cycles between every pair of events; oracle checks per trace: no record before the root's commit, all earlier-finished spans in that one report, nothing afterwards.",
-        note="Partial: completeness across threads needs the submit to be drained no later than the commit (consistent cut); the harness serialises whole cycles so it holds there; at finer granularity it is open finding D4 (not fixed: needs a two-pass drain).",
+        note="Completeness across threads needs every command pushed before the root's commit to be drained no later than it: this was defect D4 (witness corpus/C03/D4-*.txt, replayed on the unfixed code) and is fixed in /repo by the two-pass drain (bd94330); the model has the same two passes (Sys.cycStep phases atRx2 / deferred commits). The theorems characterise the report relative to the drained batch; that the second pass makes the batch a consistent cut is argued in DESIGN.md and exercised by stepped cycles with operations between the steps, not yet one Lean theorem over histories.",
         design="§4 C03"),
     "C04": dict(
         technique="Lean 4: drop-before-submit-before-commit lemmas, default-configuration no-op theorem (C04_noop_default_cycle); differential fh-seq vs model; python spec oracle",
         text="Kernel-checked: C04_dropped_not_emitted (a consumed drop suppresses the id in that cycle even with the commit in the same batch, and releases it), C04_late_submits_discarded, C04_others_unaffected, C04_noop_default / C04_noop_default_cycle (D9 fix: in the default configuration removing all drop commands from a batch changes nothing). "
              "Tie: programs cancelling roots at arbitrary points in both configurations, multi-parent spans shared with non-cancelled traces; oracle checks nothing of a cancelled trace is ever delivered, every other trace exactly as specified, and that cancel() without cancelable(true) changes nothing (attachments parked before the cancel survive).",
-        note="Partial: 'once cancel() has been called' needs the drop to be drained no later than the commit: same thread by FIFO of forced commands (C09, D2 fix); open findings D3 (parked drop lost when a thread exits with a full queue) and D4 (start drained after the drop re-creates the entry).",
+        note="'Once cancel() has been called' needs the drop to be drained no later than the commit: same thread by FIFO of forced commands (C09, D2 fix); across threads by the two-pass drain (D4 fix bd94330, witness corpus/C04/D4-*.txt). Open finding D3 (a thread exiting with parked commands and a full queue can lose the drop) remains noted.",
         design="§4 C04"),
     "C05": dict(
         technique="Lean 4: whole-program invariant Prov proved preserved by every operation (C05_only_sampled_roots_delivered, C05_unsampled_trace_silent: for every program, no report contains a record of a trace that has no sampled root), plus flag-copy lemmas, submit filter theorem, unsampled-root theorem, scope any-sampled lemma; differential fh-seq vs model; python spec oracle",
@@ -60,7 +60,7 @@ CLAIMED = {
         technique="Lean 4: parking/mounting theorems (C06_park_order, C06_mount_exact under DistinctIds, C06_apply_items, D10 witness); differential fh-seq vs model; python spec oracle on properties/events of every record; known finding D10 replayed",
         text="Kernel-checked for every record list, parked map and string content: parking keeps per-target arrival order and does not disturb other targets; mounting gives each record exactly the items parked under its id, in order, after its own, removes them, and leaves other ids' items untouched (under DistinctIds); strings are only moved. C06_D10_witness shows the open finding. "
              "Tie: attachments through every route (creation, span handle from any thread, local parent), arbitrary UTF-8 keys/values/names, cycles between attachment and finish, both configurations.",
-        note="Open finding D10 (KNOWN_FINDINGS.txt): a span set delivered twice into one trace. Partial: cross-thread attachments rely on the consistent cut (D4).",
+        note="Open finding D10 (KNOWN_FINDINGS.txt): a span set delivered twice into one trace. Cross-thread attachments relied on the consistent cut: defect D4, fixed in /repo (bd94330), witness corpus/C06/D4-*.txt.",
         design="§4 C06"),
     "C07": dict(
         technique="Lean 4: assertion-validity theorems derived from the frame invariant (C07_local_drop_asserts, C07_scope_drop_asserts), totality/limit theorems for the repaired paths (D6, D7, D8), bounded send; implementation run under catch_unwind + deadline on wild call sequences incl. TLS-teardown calls, 4100 nested scopes, 10245 local spans, full ring",
@@ -72,7 +72,7 @@ CLAIMED = {
         technique="Lean 4: exact retained-key-set theorem for a cycle and its corollaries over batch histories; drain lemmas for receivers; differential incl. verif::collector_stats(); python oracle on final stats",
         text="Kernel-checked for every state/batch/history: C08_retained_ids (retained = (old ∪ started) \\ committed \\ dropped-when-cancelable), C08_commit_releases, C08_drop_releases, C08_only_started, C08_history; C08_drain_removes_dead / C08_drain_batch for receivers of exited threads. "
              "Tie: collector_stats() (active ids with buffered/parked counts, registered receivers) compared with the model after every program and checked against the open-trace / live-thread count of the specification.",
-        note="Open finding D4 (a start drained after its commit is never removed; example at the end of Props/C08.lean) is outside what whole-cycle scheduling reaches; D3 similarly.",
+        note="Defect D4 (a start drained after its commit was never removed) is fixed in /repo by the two-pass drain (bd94330); witness corpus/C08/D4-*.txt. D3 (thread exit with parked commands on a full queue) remains noted.",
         design="§4 C08"),
     "C10": dict(
         technique="Lean 4: frame theorem by mutual structural induction over well-nested block programs (C10_frame), thread isolation (exec_th_other), inertness; differential fh-seq vs model with ctxLocal probes around every scope; spec oracle",
@@ -170,7 +170,8 @@ def main():
     json.dump(m, open(os.path.join(VERIF, "MANIFEST.json"), "w"), indent=1)
 
 
-HOOK_COMMITS = ["64597a6 verif hooks: cfg(fastrace_verif) hook points in spsc and handle_commands, run_collector_cycle, collector_stats, touch_sender"]
+HOOK_COMMITS = ["64597a6 verif hooks: cfg(fastrace_verif) hook points in spsc and handle_commands, run_collector_cycle, collector_stats, touch_sender",
+                "3b742b8 verif hooks: Point::SecondPass in the second drain pass of handle_commands (cfg fastrace_verif)"]
 NA = {}
 
 if __name__ == "__main__":
